@@ -58,6 +58,7 @@ def lex2? (w : String) : Option Lex2 :=
   | [("ur", _), (_, some [u]), (_, some (h :: hs))] => some (.urange u h hs)
   | [("cmt", _), (_, some body)] => some (.cmt body)
   | [("cdc", _)] => some .cdc
+  | [("identd", _), (_, some [n]), (_, some (c :: cs))] => some (.identD n c cs)
   | [("stri", _), (_, some [q]), (_, some enc)] => (sitems? (enc.length + 1) enc).map (Lex2.strI q ·)
   | _ => none
 
